@@ -271,6 +271,13 @@ func run(id, tier string) int {
 }
 
 func worker(jobJSON string) {
+	if strings.HasPrefix(jobJSON, "@") { // a job too large for the command line comes in a file
+		b, err := os.ReadFile(jobJSON[1:])
+		if err != nil {
+			rt.Harnessf("job file: %v", err)
+		}
+		jobJSON = string(b)
+	}
 	var job rt.Job
 	if err := json.Unmarshal([]byte(jobJSON), &job); err != nil {
 		rt.Harnessf("job: %v", err)
